@@ -16,6 +16,7 @@ UNIT = dict(
             # tokio's own clock type and absolute-deadline timers (optional: the pinned tree uses timeout(d, ..) and sleep(d))
             ("sub", "R9-paths", r"tokio::time::Instant::now\(\)", "Instant::now()", -1),
             ("addarg", ["timeout_at", "sleep_until"], "&*clk", -1),
+            ("R10f", -1),
             ("R17-spawn", 1),
             ("R17-select", 1),
             ("sub", "R9-paths", r"tokio::sync::oneshot::channel\(\)", "oneshot_channel(Tracked(tr))", 1),
